@@ -16,9 +16,11 @@ mod engines {
 	pub mod json;
 	pub mod tomlorder;
 	pub mod msgpack;
+	pub mod stream;
 }
 mod props {
 	pub mod c01;
+	pub mod cli_extra;
 	pub mod c02;
 	pub mod c04;
 	pub mod c06;
@@ -34,8 +36,10 @@ mod props {
 	pub mod c14;
 	pub mod c15;
 	pub mod c16;
+	pub mod c05;
 	pub mod c17;
 }
+mod alloc;
 mod corpus;
 mod gen;
 mod out;
@@ -45,6 +49,9 @@ mod xtapi;
 
 use out::Out;
 use util::Rng;
+
+#[global_allocator]
+static GLOBAL: alloc::Counting = alloc::Counting;
 
 fn main() {
 	// Deeply nested inputs are translated in-process: give the worker the
@@ -127,6 +134,10 @@ fn real_main() {
 				engines::input::run(&mut out, &mut rng.fork(), thorough);
 				props::c09::run(&mut out, &mut rng.fork(), thorough);
 			}
+			"C05" => {
+				engines::stream::run(&mut out, &mut rng.fork(), thorough);
+				props::c05::run(&mut out, &mut rng.fork(), thorough);
+			}
 			"C17" => {
 				// guards: read_handler / ChunkReader::read vs the model, incl. over-reports
 				engines::chunker::run_guards(&mut out, &mut rng.fork(), thorough);
@@ -141,10 +152,22 @@ fn real_main() {
 				engines::msgpack::run_decode(&mut out, &mut rng.fork(), thorough);
 				props::c18::run(&mut out, &mut rng.fork(), thorough);
 			}
-			"C13" => props::c13::run(&mut out, &mut rng.fork(), thorough),
-			"C14" => props::c14::run(&mut out, &mut rng.fork(), thorough),
+			"C13" => {
+				props::c13::run(&mut out, &mut rng.fork(), thorough);
+				props::cli_extra::small_output_to_full_device(&mut out, "C13");
+				props::cli_extra::c13_repeated_options(&mut out);
+			}
+			"C14" => {
+				props::c14::run(&mut out, &mut rng.fork(), thorough);
+				props::cli_extra::c14_stdin_at_offset(&mut out, &mut rng.fork(), thorough);
+			}
 			"C15" => props::c15::run(&mut out, &mut rng.fork(), thorough),
-			"C16" => props::c16::run(&mut out, &mut rng.fork(), thorough),
+			"C16" => {
+				props::c16::run(&mut out, &mut rng.fork(), thorough);
+				props::cli_extra::c16_buffer_boundary(&mut out, thorough);
+				props::cli_extra::small_output_to_full_device(&mut out, "C16");
+				props::cli_extra::c16_help_write_errors(&mut out);
+			}
 			_ => {
 				eprintln!("unknown property {prop}");
 				std::process::exit(3);
@@ -184,6 +207,17 @@ fn real_main() {
 		let inputs: Vec<_> = args[5].split('/').map(|h| (util::unhex(h).expect("hex"), supply.clone(), from)).collect();
 		let (results, out) = xtapi::translate_many(&inputs, to);
 		println!("results={results:?}\noutput={}\ntext={:?}", util::hex(&out), String::from_utf8_lossy(&out));
+		return;
+	}
+	if args.len() >= 6 && args[1] == "trace" {
+		// xtverif trace <from|auto> <to> <packet-bytes|0> <hex>: the read/write trace of one translation.
+		let from = xtapi::Fmt::from_name(&args[2]);
+		let to = xtapi::Fmt::from_name(&args[3]).expect("to");
+		let p: usize = args[4].parse().expect("packet size");
+		let data = std::rc::Rc::new(util::unhex(&args[5]).expect("hex"));
+		let packets = if p == 0 { engines::stream::Packets::All } else { engines::stream::Packets::Every(p) };
+		let r = engines::stream::run_real(&data, &packets, from, to);
+		println!("result={:?} written={}\ntrace={}", r.result, r.written, engines::stream::trace_field(&r.trace));
 		return;
 	}
 	if args.len() >= 2 && args[1] == "probe-transient" {
